@@ -9,6 +9,14 @@ From FV Require Import Common.EventLog Seq.SlotModel Seq.SlotProofs Seq.VectorMo
   Seq.IListModel Seq.IListProofs Seq.SeqTheorems.
 Import ListNotations.
 
+(* Element values are abstract codes (V = N) in all models.  Two properties of the real element type are therefore
+   outside the models and are checked by oracle + correspondence only (comp/seq/harness.cpp, NOTES.md):
+   - operations that forward constructor arguments (vector::emplace_back, stack::emplace, small_vector::emplace_back,
+     list::emplace_back, resize(k, args...)) store T(args...) -- direct-initialisation, as the std:: containers do;
+     the scripts' `emplace2 n x` / `resize2 k n x` denote VEmplace/VResize with the value code of T(n, x);
+   - "storage they own" includes its alignment: every element lives at an address that is a multiple of
+     alignof(T), inline as well as on the heap (element type alignas(64), oracle kind `alignment`). *)
+
 (* ------------------------------------------------------------------------------------------ vector
    [ref_step] is the operation on lists (push = snoc, pop = removelast/last, resize = firstn / padding with the
    value, copy/move/assign/swap on the register file); [ref_ok] = the preconditions the source does not check
